@@ -620,20 +620,32 @@ func (e *env) listGrids() {
 				bad = bad[:1]
 			}
 			for _, b := range bad {
-				var l config.SchedulerConfigs
-				for i := 0; i < n; i++ {
-					t := regs[i]
-					if i == at {
-						t = b
+				// the other fields of the illegal entry matter too: disabled / with arguments
+				for variant := 0; variant < 3; variant++ {
+					if at < 0 && variant > 0 {
+						break
 					}
-					l = append(l, config.SchedulerConfig{Type: t})
+					var l config.SchedulerConfigs
+					for i := 0; i < n; i++ {
+						sc := config.SchedulerConfig{Type: regs[i]}
+						if i == at {
+							sc.Type = b
+							switch variant {
+							case 1:
+								sc.Disable = true
+							case 2:
+								sc.Args, sc.ArgsPayload = []string{"1"}, "{}"
+							}
+						}
+						l = append(l, sc)
+					}
+					cl := fmt.Sprintf("schedulers=in:%d-registered", n)
+					if at >= 0 {
+						cl = fmt.Sprintf("schedulers=out:unregistered-type(%q)@%d/%d,entry-variant-%d", b, at, n, variant)
+					}
+					e.once(e.directStep(e.schedCall(cl, func(c *config.ScheduleConfig) { c.Schedulers = l })), restore)
+					r.Count("list_grid_schedulers", 1)
 				}
-				cl := fmt.Sprintf("schedulers=in:%d-registered", n)
-				if at >= 0 {
-					cl = fmt.Sprintf("schedulers=out:unregistered-type(%q)@%d/%d", b, at, n)
-				}
-				e.once(e.directStep(e.schedCall(cl, func(c *config.ScheduleConfig) { c.Schedulers = l })), restore)
-				r.Count("list_grid_schedulers", 1)
 			}
 		}
 	}
@@ -740,17 +752,20 @@ func (ru *running) httpListGrids() {
 	regs := []string{"balance-region", "balance-leader", "hot-region"}
 	for at := 0; at < 3; at++ {
 		for _, b := range badSchedulerTypes {
-			var l config.SchedulerConfigs
-			for i, t := range regs {
-				if i == at {
-					t = b
+			for _, disabled := range []bool{false, true} {
+				var l config.SchedulerConfigs
+				for i, t := range regs {
+					sc := config.SchedulerConfig{Type: t}
+					if i == at {
+						sc.Type, sc.Disable = b, disabled
+					}
+					l = append(l, sc)
 				}
-				l = append(l, config.SchedulerConfig{Type: t})
+				if !run(&post{Path: "/config/schedule", Body: map[string]interface{}{"schedulers-v2": jsonOf(l)}, Class: fmt.Sprintf("schedulers-v2=out:unregistered-type(%q)@%d/3,disabled=%v", b, at, disabled), site: "POST /config/schedule", out: true}) {
+					return
+				}
+				r.Count("list_grid_http_schedulers", 1)
 			}
-			if !run(&post{Path: "/config/schedule", Body: map[string]interface{}{"schedulers-v2": jsonOf(l)}, Class: fmt.Sprintf("schedulers-v2=out:unregistered-type(%q)@%d/3", b, at), site: "POST /config/schedule", out: true}) {
-				return
-			}
-			r.Count("list_grid_http_schedulers", 1)
 		}
 	}
 	restore()
